@@ -89,6 +89,7 @@ type blk struct {
 	prevRev [][2]uint64 // contract, revision number before (for the revert)
 	succ    []int
 	fail    []int
+	renew   []int // v2 contracts whose renewal is confirmed
 	created []int // utxo numbers
 	spent   []int
 	ann     bool
@@ -192,7 +193,7 @@ func v2idOf(n int, fc types.V2FileContract) types.FileContractID {
 func settingsVariant(v int) settings.Settings {
 	s := settings.DefaultSettings
 	s.AcceptingContracts = v%2 == 1
-	s.NetAddress = fmt.Sprintf("host%d.example:9982", v)
+	s.NetAddress = fmt.Sprintf("host%d.example", v) // no port: the settings manager refuses one (validateHostname)
 	s.ContractPrice = cur(uint64(1000 + v))
 	s.BaseRPCPrice = cur(uint64(10 + v))
 	s.StoragePrice = cur(uint64(20 + v))
@@ -1066,7 +1067,7 @@ func (b *book) viewsAt(stack []*blk) map[int]*cinfo {
 				v.chainRev = r[1]
 			}
 		}
-		for _, n := range append(append([]int(nil), bl.succ...), bl.fail...) {
+		for _, n := range append(append(append([]int(nil), bl.succ...), bl.fail...), bl.renew...) {
 			if v, ok := vs[n]; ok {
 				v.resolved = true
 			}
@@ -1125,6 +1126,8 @@ func (b *book) genBlocks(base []*blk, n, fork int, seed uint64) []*blk {
 					bl.form = append(bl.form, cn)
 				}
 			case v.resolved:
+			case v.v2 && v.superseded && r.Chance(1, 2):
+				bl.renew = append(bl.renew, cn) // the renewal transaction of a renewed v2 contract is mined
 			case h >= v.we:
 				if r.Chance(1, 2) {
 					bl.succ = append(bl.succ, cn)
@@ -1231,6 +1234,11 @@ func (bl *blk) changes(b *book, prev bool) (sc contracts.StateChanges) {
 			} else {
 				sc.Successful = append(sc.Successful, c.id)
 			}
+		}
+	}
+	for _, n := range bl.renew {
+		if c := b.cs[n]; c != nil && c.v2 {
+			sc.RenewedV2 = append(sc.RenewedV2, c.id)
 		}
 	}
 	for _, n := range bl.fail {
